@@ -4,6 +4,7 @@ import (
 	"go/ast"
 	"go/token"
 	"go/types"
+	"strings"
 )
 
 func init() { register("C20", rulesC20, nil) }
@@ -373,6 +374,9 @@ func rulesC20(c *Ctx) {
 			}), "purge:only-nonempty-lists", pf, pg.Node(v), "removeFirst is called only on lists that still hold bytes (guards: %s)", atomsString(guards))
 		}
 	})
+
+	c.Import("R-C20-6", "closing a session releases its data end to end: the client's Close reaches the server's SessionClosed through the DELETE it sends", "C11", "R-C11-8", nil)
+	c.Import("R-C20-7", "a purge is reported to the consumer: when the server refuses a resumption (events purged) the client's stream goroutine fails the connection instead of ending silently", "C09", "R-C09-3", func(k string) bool { return strings.HasPrefix(k, "handleSSE") })
 
 	c.Rule("R-C20-5", "a stream's list, and a session's table of lists, are created only when missing: every store into these maps is guarded by the failed comma-ok lookup of the same map (re-opening a known stream must not replace its list: the events would vanish while the byte total keeps counting them)", func() {
 		isListMap := func(t types.Type) bool {
